@@ -578,6 +578,10 @@ def run(ctx):
     # an option row that cannot be read or written fails the call (never silently replaced by a default)
     D.error_discipline(ctx, "R-C16.9", scope=lambda f: f.startswith(("keyspace::options::", "meta_keyspace::", "keyspace::config::", "<keyspace::config::")))
 
+    # ---- R-C16.10 the transactional databases hand the caller's name and options closure to Database::keyspace unchanged
+    from .. import wrappers as W
+    W.db_wrapper_forwarding(ctx, "R-C16.10", only=("keyspace", "keyspace_exists", "list_keyspace_names", "keyspace_count"))
+
     # ---- borrowed obligations (mechanisms owned by other properties that this property's verdict also rests on)
     # an existing keyspace is never created a second time with other options
     ctx.borrow("C12", ["R-C12.7"], "R-C16.6")
